@@ -348,7 +348,13 @@ def analyse(ctx, results, st):
             mc = sorted(mc)
             mt = dict(zip(['total', 'succeed', 'skipped', 'invalid_gene_id', 'invalid_position', 'insufficient_evidence', 'antisense_strand'], tl))
         cli_fail = None
-        if isinstance(ac, list):
+        if 'cli_argv' in im:
+            st['argv'] = st.get('argv', 0) + 1
+            av = canon(im['cli_argv'])
+            if av != ac:
+                cli_fail = 'through the real argument parser (%s) the command gives %s, the entry function called with the same options gives %s' % (
+                    '--index-dir' if case.get('argv_index') else 'reference files', str(av)[:200], str(ac)[:200])
+        if isinstance(ac, list) and not cli_fail:
             # declarative: rows below the thresholds or with unknown genes contribute nothing; counted
             it = im.get('tally')
             if it:
@@ -415,6 +421,13 @@ def run(ctx):
     rng = ctx.rng
     n = 900 if ctx.quick else 9000
     cases = [gen_case(rng) for _ in range(n)]
+    k = 0
+    for i, c in enumerate(cases):          # small stream through the real argument parser, all options spelled out
+        if i % 10 == 0:
+            c['argv'] = True
+            if k < 3:
+                c['argv_index'] = True     # one per tool is likely among the first three
+            k += 1
     cdir = os.path.join(os.path.dirname(os.path.dirname(os.path.dirname(os.path.abspath(__file__)))), 'corpus', 'C15')
     corpus = [json.load(open(f))['case'] for f in sorted(glob.glob(os.path.join(cdir, '*.json')))]
     st = new_stats()
@@ -441,7 +454,7 @@ def run(ctx):
                      'per CLI run); non-trivial = the row produced at least one record whose denoted fusion transcript was compared '
                      'with the ground truth; distinct by (tool, genes, breakpoints)',
                 samples=samples, distribution=st['dist'], strand_combinations=st['strand_combos'], error_classes=st['errors'],
-                records=st['records'], records_reconstructed=st['checked'], coq_semantics_crosschecked=n_sem, cli_runs=st['cli'], tallies_compared=st['tallies'],
+                records=st['records'], records_reconstructed=st['checked'], coq_semantics_crosschecked=n_sem, cli_runs=st['cli'], argv_route_runs=st.get('argv', 0), tallies_compared=st['tallies'],
                 disagreements=len(st['diffs']), violations=violations[:12],
                 assumptions=['breakpoint columns are 1-based: last donor base / first accepter base (documented convention of all three tools)',
                              'chromosome names in the rows are those of the annotation; gene strand is +1/-1',
